@@ -796,6 +796,17 @@ def build_pipeline_inspection(
             suppressed_keys = set(node.get_suppressed_keys())
             deleted_keys.update(suppressed_keys)
 
+        # A key this node suppresses must be in the context to be removed, also when
+        # the node takes the *value* of that name from its own configuration.
+        for key in sorted(suppressed_keys & set(node.processor_config)):
+            if key in deleted_at_entry:
+                node_errors.append(
+                    f"Node {index} requires context keys previously deleted: {[key]}"
+                )
+            elif key not in key_origin:
+                required_context_keys.add(key)
+                key_origin[key] = None
+
         # Validate parameter availability against deleted keys
         # Parameters are resolved before the node runs: a key deleted by an earlier
         # node is gone, whether or not this node would delete it again.
